@@ -19,27 +19,27 @@ pub struct Cfg {
     pub ovr: usize,     // wall U override: none, set
     pub cons: usize,    // ok, missing
     pub mult: usize,    // 1, 2.5
-    pub win: usize,     // none, resolvable, unresolvable cons, overridden
+    pub win: usize,     // none, resolvable, unresolvable cons, overridden, overridden+unresolvable, whole wall, cons without frame
 }
 
 pub const BOUNDS: [BoundaryType; 4] = [BoundaryType::EXTERIOR, BoundaryType::INTERIOR, BoundaryType::GROUND, BoundaryType::ADIABATIC];
 pub const TILTS: [f32; 3] = [0.0, 90.0, 180.0];
 
 pub fn cfg_grid() -> Grid {
-    Grid::new(&[("bounds", 4), ("tilt", 3), ("space", 3), ("next_to", 4), ("u_override", 2), ("cons", 2), ("multiplier", 2), ("window", 5)])
+    Grid::new(&[("bounds", 4), ("tilt", 3), ("space", 3), ("next_to", 4), ("u_override", 2), ("cons", 2), ("multiplier", 2), ("window", 7)])
 }
 
 pub fn cfg_of(t: &[usize]) -> Cfg {
     Cfg { bounds: t[0], tilt: t[1], space: t[2], next: t[3], ovr: t[4], cons: t[5], mult: t[6], win: t[7] }
 }
 
-/// the 96-configuration core used for ordered pairs
+/// the 160-configuration core used for ordered pairs
 pub fn core_cfgs() -> Vec<Cfg> {
     let mut v = vec![];
     for bounds in 0..4 {
         for tilt in 0..3 {
             for space in 0..2 {
-                for win in [0usize, 1, 4] {
+                for win in [0usize, 1, 4, 5, 6] {
                     for mult in 0..2 {
                         let next = if bounds == 1 { if space == 0 { 2 } else { 1 } } else { 0 };
                         v.push(Cfg { bounds, tilt, space, next, ovr: 0, cons: 0, mult, win });
@@ -92,6 +92,17 @@ pub fn add_element(m: &mut Model, c: &Cfg, name: &str, k: usize) {
             m.overrides.windows.insert(v.id, WinPropsOverrides { u_value: Some(1.1), f_shobst: Some(0.5) });
             m.windows.push(v);
         }
+        5 => {
+            // the window covers the whole wall: no net opaque area is left
+            m.windows.push(window(&format!("{name}_v"), uid("winc"), wid, Some([0.0, 0.0]), 4.0, 3.0, 0.0));
+        }
+        6 => {
+            // a construction that exists (with its own air permeability) but whose frame does not
+            if !m.cons.wincons.iter().any(|c| c.name == "winc-noframe") {
+                m.cons.wincons.push(wincons("winc-noframe", uid("gl"), uid("missing-frame"), 0.3, 0.0, Some(0.4), 9.0));
+            }
+            m.windows.push(window(&format!("{name}_v"), uid("winc-noframe"), wid, Some([1.0, 1.0]), 1.5, 1.2, 0.0));
+        }
         _ => {
             // user override on a window whose construction does not resolve
             let v = window(&format!("{name}_v"), uid("missing-wincons"), wid, Some([1.0, 1.0]), 1.5, 1.2, 0.0);
@@ -115,7 +126,7 @@ pub fn model_pair(a: &Cfg, b: &Cfg) -> Model {
         m.spaces[1].multiplier = [1.0, 2.5][b.mult];
     }
     // a second window of X stored after Y's window: the windows of one wall are not contiguous in the list
-    if a.win > 0 && b.win > 0 {
+    if a.win > 0 && a.win != 5 && b.win > 0 {
         m.windows.push(window("X_v2", uid("winc"), uid("X"), Some([2.8, 0.3]), 0.9, 1.1, 0.0));
     }
     m
@@ -248,7 +259,7 @@ pub fn run08(ctx: &Ctx) -> i32 {
     ctx.sample(json!({"part": "pair", "a": format!("{:?}", core[5]), "b": format!("{:?}", core[77])}));
     ctx.finish(
         "model_checking",
-        "all 5760 single-element configurations (bounds 4 x tilt 3 x space{inside,outside,missing} x next_to{None,inside,outside,missing} x U override{-,set} x construction{ok,missing} x multiplier{1,2.5} x window{none,resolvable,unresolvable construction,overridden,overridden+unresolvable}) in a fixed two-space context; all 9216 ordered pairs over a 96-configuration core (when both elements have a window the first wall gets a second window stored after the second wall's, so its windows are not contiguous in the list; + list reversal and id relabeling on every 5th pair); 9 bridge kinds x l{-1,-0.0,0,2.5} x psi{0,.1,-.05} singly and all together; 7 shipped models; oracle: K, totals, categories, u_min/u_max/u_mean, bridge sums recomputed in f64 from the model by the statement's formula (wall U from Wall::u_value, window U from the C07 formula) with an interval for the 0.01 m2 rounding of net areas; non-trivial = envelope area > 0",
+        "all 8064 single-element configurations (bounds 4 x tilt 3 x space{inside,outside,missing} x next_to{None,inside,outside,missing} x U override{-,set} x construction{ok,missing} x multiplier{1,2.5} x window{none,resolvable,unresolvable construction,overridden,overridden+unresolvable,covering the whole wall,construction present but frame missing}) in a fixed two-space context; all 25600 ordered pairs over a 160-configuration core (when both elements have a window the first wall gets a second window stored after the second wall's, so its windows are not contiguous in the list; + list reversal and id relabeling on every 5th pair); 9 bridge kinds x l{-1,-0.0,0,2.5} x psi{0,.1,-.05} singly and all together; 7 shipped models; oracle: K, totals, categories, u_min/u_max/u_mean, bridge sums recomputed in f64 from the model by the statement's formula (wall U from Wall::u_value, window U from the C07 formula) with an interval for the 0.01 m2 rounding of net areas; non-trivial = envelope area > 0",
         true,
         json!({"singles": n, "pairs": np}),
     )
